@@ -262,3 +262,18 @@ package server
 //@ loop 2 step [C09] called(Persistence.NewQueueStore#1) == at(iter2, called(Persistence.NewQueueStore#1)) + 1 && called(Persistence.NewUnackStore#1) == at(iter2, called(Persistence.NewUnackStore#1)) + 1
 // a store that cannot be made stops the start-up with the error (no half-initialised broker)
 //@ ensures [C09] err == nil ==> called(Store.Init#1) == 1
+
+// TerminateSession (administrative termination, C05): a connected client is marked "remove the session when the
+// connection ends" and its connection is closed — unregisterClient then terminates the session; an offline session is
+// terminated at once, with the reason "normal"; a client id that is neither online nor offline is left alone.
+//@ func (*clientService).TerminateSession
+//@ props C05
+//@ let srv0 = c.srv
+//@ requires [C05] c != nil && c.srv != nil && c.srv.sessionStore != nil && c.srv.subscriptionsDB != nil && c.srv.statsManager != nil && c.srv.clients != nil && c.srv.offlineClients != nil && c.srv.queueStore != nil && smOK(c.srv.statsManager) && (forall k string :: has(c.srv.clients, k) ==> c.srv.clients[k] != nil)
+//@ modifies heap, ghostall(queue.Store.$cleans), ghost(c.srv.sessionStore.$removes), ghost(c.srv.sessionStore.$lastRemoved), ghost(c.srv.sessionStore.$has), ghost(c.srv.subscriptionsDB.$unsubAlls), ghost(c.srv.subscriptionsDB.$lastUnsubAll), ghost(c.srv.hooks.$st), ghost(c.srv.hooks.$stID), ghost(c.srv.hooks.$stReason)
+//@ waive frame
+//@ abstract call client).Close pure
+//@ call server.sessionTerminatedLocked#1 assert [C05] clientID == $arg1 && !has(c.srv.clients, clientID) && has(c.srv.offlineClients, clientID) && reason == NormalTermination
+//@ ensures [C05] old(has(c.srv.clients, clientID)) ==> called(server.sessionTerminatedLocked#1) == 0 && old(c.srv.clients[clientID]).forceRemoveSession == 1
+//@ ensures [C05] !old(has(c.srv.clients, clientID)) && old(has(c.srv.offlineClients, clientID)) ==> called(server.sessionTerminatedLocked#1) == 1 && !has(srv0.offlineClients, clientID)
+//@ ensures [C05] !old(has(c.srv.clients, clientID)) && !old(has(c.srv.offlineClients, clientID)) ==> called(server.sessionTerminatedLocked#1) == 0
